@@ -292,6 +292,31 @@ def scenario_stream(rec: Recorder, role: str, rnd: random.Random, garbage_p: flo
             rec.recv(bytes(rnd.randrange(256) for _ in range(rnd.randrange(1, 5))))
 
 
+def scenario_bulk(rec: Recorder, role: str, rnd: random.Random) -> None:
+    """A long-lived session: many back-to-back units (tens of KiB in total) delivered in fixed-size segments that never
+    line up with unit boundaries - what a socket read loop with a fixed buffer does during a large search."""
+    rec.new(role, "bulk")
+    units: t.List[t.Tuple[bytes, t.Dict[str, t.Any]]] = []
+    n = rnd.choice((40, 80, 120, 200))
+    if role == "client":
+        e = rec.call({"op": "send", "k": "searchReq"})
+        rec.drain(None)
+        if e["res"] != "ok":
+            return
+        for _ in range(n):
+            units.append(small_unit(rnd.choice(("entry", "entry", "entry", "ref")), e["ret"], rnd, limit=400))
+        units.append(small_unit("done", e["ret"], rnd, limit=400))
+    else:
+        for j in range(n):
+            units.append(small_unit(rnd.choice(("searchReq", "extReq")), j + 1, rnd, limit=400))
+    rec.stream([u[1] for u in units])
+    stream = b"".join(u[0] for u in units)
+    seg = rnd.choice((100, 512, 1000, 1460, 4096, 37, 8192))
+    for p in range(0, len(stream), seg):
+        if rec.recv(stream[p:p + seg]) != "ok":
+            break
+
+
 def ad_notice(rnd: random.Random) -> t.Tuple[bytes, t.Dict[str, t.Any]]:
     """The NoticeOfDisconnection of MS-ADTS: message id 0, an ExtendedResponse without responseName, and the OID in an
     envelope extension  responseName [10] LDAPOID  after the protocolOp (documented by the library as supported)."""
@@ -501,6 +526,8 @@ def drive(seed: int, n_traces: int) -> t.List[t.Dict[str, t.Any]]:
             for _ in range(4):
                 scenario_anykind(rec, rnd.choice(("client", "server")), rnd)
             scenario_ad_notice(rec, rnd)
+        if j % 20 == 7:
+            scenario_bulk(rec, role, rnd)
         if u < 4:
             scenario_stream(rec, role, rnd, garbage_p=0.0, violate_p=0.03)
         elif u < 6:
